@@ -185,6 +185,8 @@ fn build_pair(r: &mut Rng, out: &mut String, force_relation: bool) -> &'static s
     writeln!(out, "new b1").unwrap();
     let mode = if r.chance(1, 14) {
         95 // complements
+    } else if r.chance(1, 14) {
+        201 // array chunk against a bitset chunk that misses exactly one of its values
     } else if r.chance(1, 16) {
         200 // many chunks
     } else if force_relation {
@@ -418,6 +420,37 @@ fn build_pair(r: &mut Rng, out: &mut String, force_relation: bool) -> &'static s
             let (l, rr) = if r.chance(2, 3) { ("b0", "b1") } else { ("b1", "b0") };
             writeln!(out, "from_iter {}{}", l, big).unwrap();
             writeln!(out, "from_iter {}{}", rr, small).unwrap();
+            "b1"
+        }
+        // near-subset across representations: b0 = an array chunk; b1 = the same values inside a bitset chunk, minus ONE value
+        // of b0 (its last / first / a middle one, i.e. in the last / first / an inner 64-bit word the array touches) or
+        // minus none: is_subset must notice a single missing value wherever it sits
+        201 => {
+            let k = *r.pick(&KEYS);
+            let bs = base(k);
+            let mut vals: Vec<u64> = Vec::new();
+            let n = *r.pick(&[1u64, 2, 5, 40, 300]);
+            let mut v = bs + r.below(3000);
+            for _ in 0..n {
+                vals.push(v);
+                v += *r.pick(&[1u64, 2, 63, 64, 65, 200]);
+            }
+            let s: Vec<String> = vals.iter().map(|x| x.to_string()).collect();
+            writeln!(out, "from_iter b0 {}", s.join(" ")).unwrap();
+            writeln!(out, "clone b1 b0").unwrap();
+            // the padding that makes b1's chunk a bitset: a block that covers all of b0's values, or none of them
+            let last = *vals.last().unwrap();
+            if r.chance(1, 2) {
+                writeln!(out, "insert_range b1 in:{} in:{}", bs, (last + 5000).min(bs + 65535)).unwrap();
+            } else {
+                writeln!(out, "insert_range b1 in:{} in:{}", (last + 100).min(bs + 60000), (last + 100).min(bs + 60000) + 5000).unwrap();
+            }
+            match r.below(5) {
+                0 | 1 => writeln!(out, "remove b1 {}", last).unwrap(),
+                2 => writeln!(out, "remove b1 {}", vals[0]).unwrap(),
+                3 => writeln!(out, "remove b1 {}", vals[vals.len() / 2]).unwrap(),
+                _ => {}
+            }
             "b1"
         }
         // one side empty (or both)
